@@ -56,6 +56,7 @@ pub struct Outcome {
     pub nontrivial: bool,
     pub model_state: Value,
     pub counters: std::collections::BTreeMap<String, u64>,
+    pub known_seen: Vec<Found>,
 }
 
 #[derive(Clone, Debug)]
@@ -85,6 +86,10 @@ pub struct Driver {
     last_clean: bool,
     pub counters: std::collections::BTreeMap<String, u64>,
     pub probe_every: u64,
+    /// signatures of recorded (known) findings: the history continues past them (the model state stays
+    /// consistent with the library for every one of them), they are reported separately
+    pub known: std::sync::Arc<std::collections::HashSet<String>>,
+    pub known_seen: Vec<Found>,
 }
 
 const TOPICS: [&str; 3] = ["a", "b", "c/d"];
@@ -109,6 +114,8 @@ impl Driver {
             last_clean: true,
             counters: Default::default(),
             probe_every: 8,
+            known: Default::default(),
+            known_seen: Vec::new(),
         }
     }
     fn bump(&mut self, k: &str) {
@@ -140,6 +147,14 @@ impl Driver {
         }
         self.mix(h);
         self.trace.push(Step { call: call.short(), events: evs_short(&events) });
+        if !self.sink.found.is_empty() && self.sink.found.iter().all(|f| self.known.contains(&f.signature())) {
+            let fs: Vec<Found> = self.sink.found.drain(..).collect();
+            for f in fs {
+                if !self.known_seen.iter().any(|k| k.signature() == f.signature()) {
+                    self.known_seen.push(f);
+                }
+            }
+        }
         if !self.sink.found.is_empty() || self.model.lost {
             self.dead = true;
         }
@@ -744,6 +759,21 @@ impl Driver {
             self.set_ping_interval(v);
             return;
         }
+        if self.r.below(1000) < (if f == Focus::Ids { 40 } else { 8 }) {
+            // a send that must be refused whatever the state: wrong protocol version, or a packet kind
+            // this role may never send - carrying a packet id the application holds
+            if let Some(id) = self.app_id() {
+                let wrong_ver = if ver == Ver::V5 { Ver::V311 } else { Ver::V5 };
+                let v = if self.sc.role == Role::Server && self.r.bool() { ver } else { wrong_ver };
+                let p = match self.r.below(3) {
+                    0 => Pkt::Subscribe { ver: v, id, props: vec![], entries: vec![(b"a/#".to_vec(), 1)] },
+                    1 => Pkt::Unsubscribe { ver: v, id, props: vec![], entries: vec![b"a/#".to_vec()] },
+                    _ => Pkt::Publish { ver: wrong_ver, dup: false, qos: 1, retain: false, topic: b"a".to_vec(), id: Some(id), props: vec![], payload: vec![1] },
+                };
+                self.send(p);
+            }
+            return;
+        }
         match self.model.status {
             St::D => {
                 if self.close_pending {
@@ -980,6 +1010,7 @@ impl Driver {
             nontrivial: self.nontrivial,
             model_state: self.model.state_json(),
             counters: self.counters,
+            known_seen: self.known_seen,
         }
     }
 }
